@@ -2,15 +2,20 @@ import Driver.Proto
 import Model.Rotation
 open Proto Rot
 
-/-- driver state: the rotator (if `New` succeeded), the model state, how many indexes are tabulated/printed,
-    and the number of `w` operations so far in this history (it determines the byte pattern of the next write) -/
+/-- driver state: the rotator (if `New` succeeded), the model state with the directory held as an array of `bound`
+    entries, and the number of `w` operations so far in this history (it fixes the byte pattern of the next write) -/
 structure D where
   cfg : Option Cfg
-  st : St
+  dir : Array (Option Bytes)
+  isOpen : Bool
+  size : Nat
   bound : Nat
   k : Nat
 
-def D.init : D := { cfg := none, st := fresh (fun _ => none), bound := 1, k := 0 }
+def D.init : D := { cfg := none, dir := #[], isOpen := false, size := 0, bound := 1, k := 0 }
+def D.st (d : D) : St := { files := ofArray d.dir, isOpen := d.isOpen, size := d.size }
+/-- store a model state (the directory is tabulated on the indexes `< bound`) -/
+def D.put (d : D) (s : St) : D := { d with dir := toArray s.files d.bound, isOpen := s.isOpen, size := s.size }
 
 def writeTag (k : Nat) : Nat := k % 199 + 1
 def preTag (i : Nat) : Nat := 200 + i % 50
@@ -45,22 +50,20 @@ def showFile (i : Nat) (c : Bytes) : String :=
   toString i ++ "=[" ++ ",".intercalate ((rle c).map fun (v, n) => toString v ++ "*" ++ toString n) ++ "]"
 
 def obs (d : D) : String :=
-  let parts := (List.range d.bound).filterMap fun i => (d.st.files i).map (showFile i)
+  let parts := (List.range d.bound).filterMap fun i => (d.dir.getD i none).map (showFile i)
   if parts.isEmpty then "empty" else " ".intercalate parts
-
-def norm (d : D) : D := { d with st := { d.st with files := tabulate d.st.files d.bound } }
 
 def step (d : D) (line : String) : D × String :=
   match words line with
   | ["reset", o, p] =>
     match parseOpts o, parsePre p with
     | some opts, some pre =>
-      if !(opts.any fun | .path _ => true | _ => false) then ({ D.init with }, "nopath") else
+      if !(opts.any fun | .path _ => true | _ => false) then (D.init, "nopath") else
       match Rot.new opts with
-      | none => ({ D.init with }, "new=err")
+      | none => (D.init, "new=err")
       | some r =>
         let bound := (pre.foldl (fun m q => max m q.1) r.cfg.maxBackups) + 2
-        let d := norm { cfg := some r.cfg, st := fresh (preFiles pre), bound := bound, k := 0 }
+        let d := ({ D.init with cfg := some r.cfg, bound := bound }).put (fresh (preFiles pre))
         (d, "new=ok | " ++ obs d)
     | _, _ => (D.init, "bad-op")
   | ["w", n] =>
@@ -69,18 +72,18 @@ def step (d : D) (line : String) : D × String :=
       let b := List.replicate n (writeTag d.k)
       match iterate cfg 64 d.st b with
       | .done s' =>
-        let d' := norm { d with st := s', k := d.k + 1 }
+        let d' := { d with k := d.k + 1 }.put s'
         (d', "n=" ++ toString b.length ++ " err=nil | " ++ obs d')
-      | .again s' => (norm { d with st := s', k := d.k + 1 }, "hang")
+      | .again s' => ({ d with k := d.k + 1 }.put s', "hang")
     | some _, none => (d, "norot")
     | none, _ => (d, "bad-op")
   | ["close"] =>
     match d.cfg with
-    | some _ => let d' := { d with st := close d.st }; (d', "close=nil | " ++ obs d')
+    | some _ => let d' := d.put (close d.st); (d', "close=nil | " ++ obs d')
     | none => (d, "norot")
   | ["reopen"] =>
     match d.cfg with
-    | some _ => let d' := { d with st := reopen d.st }; (d', "new=ok | " ++ obs d')
+    | some _ => let d' := d.put (reopen d.st); (d', "new=ok | " ++ obs d')
     | none => (d, "norot")
   | ["sync"] =>
     match d.cfg with
